@@ -658,6 +658,23 @@ func vecElemAt(eff *Effects, vec ssa.Value, k int64, at ssa.Instruction) (vals [
 							if writesOnlyOtherElems(eff, cal, j, k, 0) {
 								continue // the callee assigns other elements of the vector only
 							}
+							// a setter helper (`func setStep(idx []int, i int) { idx[0] = i }`) called directly: element k
+							// becomes the corresponding argument
+							if len(mod) == 1 && len(ext) == 0 && !c.IsInvoke() {
+								if src, ok := elemSetter(cal, j, k); ok {
+									if prm, isPrm := src.(*ssa.Parameter); isPrm {
+										for pi, fp := range cal.Params {
+											if fp == prm && pi < len(args) {
+												vals = append(vals, args[pi])
+												return
+											}
+										}
+									} else {
+										vals = append(vals, src)
+										return
+									}
+								}
+							}
 							// Apply restores loc: accepted for the data package's own Apply (documented save/restore)
 							unknown = "vector passed to " + FuncKey(cal) + " which writes it"
 							return
@@ -683,6 +700,56 @@ func vecElemAt(eff *Effects, vec ssa.Value, k int64, at ssa.Instruction) (vals [
 	}
 	scan(at.Block(), instrIndex(at)-1)
 	return
+}
+
+// elemSetter: f does nothing with its j-th parameter (a vector) but store into constant elements of it, element k
+// is assigned exactly once, on every path to a return, and the value assigned is one of f's own parameters or a
+// constant: that value.
+func elemSetter(f *ssa.Function, j int, k int64) (ssa.Value, bool) {
+	if f == nil || f.Blocks == nil || j >= len(f.Params) {
+		return nil, false
+	}
+	var src ssa.Value
+	rets := returnsOf(f)
+	for _, ref := range refs(f.Params[j]) {
+		switch x := ref.(type) {
+		case *ssa.DebugRef:
+		case *ssa.IndexAddr:
+			c, isConst := constInt(x.Index)
+			if !isConst || x.X != ssa.Value(f.Params[j]) {
+				return nil, false
+			}
+			for _, u := range refs(x) {
+				if _, dbg := u.(*ssa.DebugRef); dbg {
+					continue
+				}
+				st, isStore := u.(*ssa.Store)
+				if !isStore || st.Addr != ssa.Value(x) {
+					return nil, false
+				}
+				if c != k {
+					continue
+				}
+				if src != nil {
+					return nil, false
+				}
+				for _, ret := range rets {
+					if !instrDominates(st, ret) {
+						return nil, false
+					}
+				}
+				switch st.Val.(type) {
+				case *ssa.Parameter, *ssa.Const:
+					src = st.Val
+				default:
+					return nil, false
+				}
+			}
+		default:
+			return nil, false
+		}
+	}
+	return src, src != nil
 }
 
 // writesOnlyOtherElems: every write f makes to its j-th parameter (a []int) is a store at a constant index other
